@@ -12,7 +12,7 @@ for sid in sorted(os.listdir(V + "/seeded")):
     if not os.path.isdir(d) or not os.path.exists(d + "/meta.json") or (only and sid not in only):
         continue
     meta = json.load(open(d + "/meta.json"))
-    pid = meta["property"]
+    pid = meta.get("judged_under", meta["property"])
     subprocess.run(["git", "-C", "/repo", "reset", "-q"]); subprocess.run(["git", "-C", "/repo", "checkout", "--", "."])
     chk = subprocess.run(["git", "-C", "/repo", "apply", "--check", d + "/patch.diff"], capture_output=True, text=True)
     a = subprocess.run(["git", "-C", "/repo", "apply", "--3way", d + "/patch.diff"], capture_output=True, text=True)
@@ -25,7 +25,7 @@ for sid in sorted(os.listdir(V + "/seeded")):
     t0 = time.time()
     p = subprocess.run([V + "/check", pid, "quick"], capture_output=True, text=True, cwd=V)
     viol = [l for l in (p.stdout + p.stderr).splitlines() if "violation:" in l]
-    res[sid] = {"property": pid, "applies": True, "exit": p.returncode, "detected": p.returncode == 1, "wall_s": round(time.time() - t0, 1),
+    res[sid] = {"property": pid, "target": meta["property"], "applies": True, "exit": p.returncode, "detected": p.returncode == 1, "wall_s": round(time.time() - t0, 1),
                 "violations": [v.split("violation:")[1].strip()[:160] for v in viol[:4]], "summary": meta.get("summary", "")[:300], "needs": meta.get("needs", "")[:300]}
     subprocess.run(["git", "-C", "/repo", "reset", "-q"]); subprocess.run(["git", "-C", "/repo", "checkout", "--", "."])
     print(sid, res[sid].get("detected"), res[sid].get("exit"), flush=True)
